@@ -16,7 +16,10 @@ def _vacuity(tot):
         raise par.HarnessError("C06 vacuity guard: %r" % tot["outcomes"])
 
 
-KF = {"KF-C06-1": "with pruning on, a game whose initial state has a positive reachability value not larger than the convergence tolerance can be "
+KF = {"KF-C06-2": "with pruning on, solve() never terminates on a stopping game in which a Player-1 action is worse than the best one by less than the "
+                  "6-digit rounding can see (e.g. 0.49999995 against 0.5) and leads back through a state whose only other exit is dead: both actions are "
+                  "kept, pruning removes the exit and closes a cycle with a positive reward",
+      "KF-C06-1": "with pruning on, a game whose initial state has a positive reachability value not larger than the convergence tolerance can be "
                   "declared to have no solution: the iteration stops (largest change <= 1e-6) before the value reaches state 0, which still reports 0 "
                   "(e.g. [[(1,1)], [(4e-07,3),(0.9999996,2)], [(1,2)], [(1,3)]], final [3])"}
 
